@@ -1,7 +1,7 @@
 """Helpers shared by the per-property rule modules."""
 import ast
 
-from ..index import (AnalysisError, norm, norm_stmt, walk_no_nested, calls_in, parent_map,
+from ..index import (AnalysisError, norm, norm_stmt, walk_no_nested, calls_in, parent_map, enclosing_stmt,
                      call_name, attr_chain, names_in, get_kwarg, const_value)
 from ..cfg import CFG, node_calls, node_exprs
 from ..effects import writes_in, Write, LENGTH_CHANGING, MUTATORS, local_aliases, attr_reads
